@@ -175,6 +175,28 @@ CLAIMS = {
                      'decision tables) + tuple-order agreement + CFG '
                      'guard-dominance (ast)',
     },
+    'C17': {
+        'text': 'The matching procedures are evaluated as complete decision '
+                'tables by finite abstract interpretation: _PatternList.'
+                'matches ≡ pos ∧ ¬neg over all valuations of up to 2+2 '
+                'patterns, "!" routing, CIDR-then-wildcard construction, '
+                'wildcard host/address rule; known_hosts marker × entry-kind '
+                '→ result list (9 rows), unknown marker ⇒ error, a host field '
+                'with any of * ? | / ! handed whole to one pattern list '
+                '(so negation excludes the line), port fallback over 16 '
+                'states; authorized_keys match_options over ~2 000 states '
+                '(from: all, principals: all-of-any with principal-less '
+                'certificates failing, subject: all); the option tokenizer\'s '
+                '28 (state, character class) transitions compared with the '
+                'OpenSSH quoting rules, unbalanced quote/backslash ⇒ error; '
+                'the three loaders skip a line on KeyImportError and the key '
+                'decoders let nothing else escape (escape analysis).',
+        'note': TB + 'not decided: fnmatch semantics of arbitrary pattern '
+                'strings vs ssh-keygen -F (external oracle); hashed hosts.',
+        'technique': 'finite-domain abstract interpretation (decision and '
+                     'transition tables) + CFG guard-dominance + '
+                     'exception-escape analysis (ast)',
+    },
 }
 
 PENDING = 'check not built yet in this session (planned, see DESIGN.md section 5)'
